@@ -516,6 +516,15 @@ func c16Pairs(c *Ctx, pr *PropertyRun, prop string, keep func(what string) bool)
 				detail += "; the decoder has a second parser (" + u.name + " at " + p.instrPos(u.site) + ") beside " + pa.decCall
 			}
 		}
+		// ... and what the inverse primitive refuses, the decoder refuses:
+		// no way on from a non-nil error of that call (a fallback that takes
+		// the text as it is accepts texts outside the grammar)
+		if ok && du != nil {
+			if call, isCall := du.site.(*ssa.Call); isCall && errToleratedAnywhere(call) {
+				ok = false
+				detail += "; the decoder goes on when " + pa.decCall + " reports an error"
+			}
+		}
 		r.Ob(ok)
 		r.Sample(map[string]interface{}{"primitive": pa.what, "encoder": pa.enc + " -> " + pa.encCall, "decoder": pa.dec + " -> " + pa.decCall, "constants": detail, "ok": ok})
 		if !ok {
@@ -586,6 +595,7 @@ func c16Pairs(c *Ctx, pr *PropertyRun, prop string, keep func(what string) bool)
 		at := hasUse(calleeUses(c, su, 1), "strconv.Atoi")
 		ok := encOK && du != nil && at != nil && len(du.consts) > 0
 		_ = encDetail
+		statusWhy := ""
 		if ok {
 			ok = du.consts[0] == " "
 			if n, isC := constInt(du.site.Common().Args[2]); !isC || n != 3 {
@@ -599,10 +609,19 @@ func c16Pairs(c *Ctx, pr *PropertyRun, prop string, keep func(what string) bool)
 			if ok {
 				ok = decoderInputUnaltered(su, du.site)
 			}
+			// every code the encoder writes is accepted: the number Atoi
+			// returned (and the text it was given) is not compared with
+			// anything — a range check refuses codes MarshalText writes
+			if ok {
+				if why := comparesParsedNumber(su, at.site); why != "" {
+					ok = false
+					statusWhy = "; the decoder " + why
+				}
+			}
 		}
 		r.Ob(ok)
 		if !ok {
-			r.Violation("pair|status line", p.Pos(sm.Pos()), "status line: MarshalText no longer writes 'HTTP/x <code> <text>' as three space-separated fields that UnmarshalText reads back with SplitN(\" \", 3) and Atoi of field 1", nil)
+			r.Violation("pair|status line", p.Pos(sm.Pos()), "status line: MarshalText no longer writes 'HTTP/x <code> <text>' as three space-separated fields that UnmarshalText reads back with SplitN(\" \", 3) and Atoi of field 1"+statusWhy, nil)
 		}
 	}
 	// one quoting for every announcement of a tag
@@ -1051,4 +1070,70 @@ func enumTypedAttributesRule(c *Ctx, r *RuleResult) {
 		}
 	}
 	r.RequireRole("enumerated-attribute")
+}
+
+// comparesParsedNumber: the decoder compares the integer a parse call
+// returned, or the length of the text it parsed, with something (other than
+// the error test): a range check.
+func comparesParsedNumber(fn *ssa.Function, site ssa.CallInstruction) string {
+	call, ok := site.(*ssa.Call)
+	if !ok {
+		return ""
+	}
+	var num ssa.Value
+	for _, ref := range refsOf(call) {
+		if ex, ok := ref.(*ssa.Extract); ok && ex.Index == 0 {
+			num = ex
+		}
+	}
+	isCmp := func(op token.Token) bool {
+		switch op {
+		case token.LSS, token.LEQ, token.GTR, token.GEQ, token.EQL, token.NEQ:
+			return true
+		}
+		return false
+	}
+	why := ""
+	if num != nil {
+		for _, ref := range refsOf(num) {
+			if bo, ok := ref.(*ssa.BinOp); ok && isCmp(bo.Op) {
+				why = "compares the parsed number (" + bo.Op.String() + "): codes outside that range are refused although the encoder writes them"
+			}
+		}
+	}
+	arg := call.Common().Args[0]
+	eachInstr(fn, func(_ *ssa.BasicBlock, in ssa.Instruction) {
+		c2, ok := in.(*ssa.Call)
+		if !ok {
+			return
+		}
+		if b, isB := c2.Common().Value.(*ssa.Builtin); !isB || b.Name() != "len" || len(c2.Common().Args) != 1 {
+			return
+		}
+		a := c2.Common().Args[0]
+		same := a == arg
+		if !same {
+			// two loads of the same element parts[i]
+			la, ok1 := a.(*ssa.UnOp)
+			lb, ok2 := arg.(*ssa.UnOp)
+			if ok1 && ok2 {
+				ia, ok3 := la.X.(*ssa.IndexAddr)
+				ib, ok4 := lb.X.(*ssa.IndexAddr)
+				if ok3 && ok4 && ia.X == ib.X {
+					na, c1 := constInt(ia.Index)
+					nb, c2 := constInt(ib.Index)
+					same = c1 && c2 && na == nb
+				}
+			}
+		}
+		if !same {
+			return
+		}
+		for _, ref := range refsOf(c2) {
+			if bo, ok := ref.(*ssa.BinOp); ok && isCmp(bo.Op) {
+				why = "tests the length of the number's text: spellings the encoder can write (or a peer may legally send) are refused"
+			}
+		}
+	})
+	return why
 }
